@@ -518,4 +518,38 @@ example : (handleMessage env0 readyState
 
 end Example
 
+/-- the locking and signalling of a connection's send / receive machinery as the arguments of this file take it:
+    `MessageChannel.Add` tests `open` and sends UNDER the queue's lock and `Close` closes under it (a sender parked
+    on a full queue can therefore not be hit by the close; `sendOutgoing`'s flush loops after a failed write or a
+    lost connection release it), `handleMessage` runs the handler in a goroutine with a deferred recover that reports
+    on the error channel, `TxManager.sendTx` gives up on interrupt. -/
+def expectedConnTraces : List (String × List String) := [
+  ("MessageChannel.Add", ["c.lock.Lock", "defer c.lock.Unlock", "if{", "return", "}", "send c.Channel", "return"]),
+  ("MessageChannel.Open", ["c.lock.Lock", "defer c.lock.Unlock", "return"]),
+  ("MessageChannel.Close", ["c.lock.Lock", "defer c.lock.Unlock", "if{", "return", "}", "close c.Channel",
+      "return"]),
+  ("BitcoinNode.sendMessage", ["return"]),
+  ("BitcoinNode.sendOutgoing", ["range n.outgoingMsgChannel.Channel{", "n.connectionLock.Lock",
+      "n.connectionLock.Unlock", "if{", "range n.outgoingMsgChannel.Channel{", "}", "return", "}", "if{",
+      "range n.outgoingMsgChannel.Channel{", "}", "return", "}", "}", "return"]),
+  ("BitcoinNode.readIncoming", ["for{", "n.connectionLock.Lock", "n.connectionLock.Unlock", "if{", "return", "}",
+      "if{", "if{", "n.connectionLock.Lock", "n.connectionLock.Unlock", "return", "}", "else{", "return", "}", "}",
+      "}"]),
+  ("BitcoinNode.handleMessage", ["n.Lock", "n.Unlock", "if{", "return", "}", "if{", "return", "}", "n.Lock",
+      "n.Unlock", "if{", "if{", "return", "}", "return", "}", "go{", "defer{", "if{", "send errChan", "}", "}",
+      "send errChan", "}", "for{", "case{", "comm err := <-errChan", "if{", "return", "}", "return", "}", "case{",
+      "comm <-time.After(timeout)", "}", "}", "return"]),
+  ("TxManager.sendTx", ["for{", "case{", "comm m.txChannel <- tx", "return", "}", "case{", "comm <-interrupt",
+      "return", "}", "case{", "comm <-time.After(3 * time.Second)", "}", "}"]),
+  ("TxManager.Run", ["m.Lock", "m.Unlock", "if{", "range m.txChannel{", "}", "return", "}", "range m.txChannel{",
+      "if{", "return", "}", "if{", "if{", "if{", "return", "}", "}", "}", "}", "return"]),
+  ("TxManager.Stop", ["close m.txChannel"])
+]
+
+/-- **C15 (the send / receive discipline the arguments assume is the one in the source)**: regenerated from messages.go,
+    handlers.go and tx_manager.go on every run (`lockTrace` in go/cmd/extract). Seeds C15f (the send moved out of the
+    queue's lock) and C15g (a flush loop removed) change this list; both are also caught with a concrete history by the
+    `mgrstall` stream. -/
+theorem C15_conn_traces_in_source : Facts.connTraces = expectedConnTraces := by decide
+
 end BRV.Wire
